@@ -217,7 +217,7 @@ class Sun(object):
         # the abridged version in Meeus' book.
 
         # First check that input values are of correct types
-        if not isinstance(epoch, Epoch) and not isinstance(tofk5, bool):
+        if not isinstance(epoch, Epoch) or not isinstance(tofk5, bool):
             raise TypeError("Invalid input types")
         # Use Earth heliocentric position to compute Sun's geocentric position
         lon, lat, r = Earth.geometric_heliocentric_position(epoch, tofk5)
@@ -431,7 +431,7 @@ class Sun(object):
 
         # First check that input values are of correct types
         if (not isinstance(epoch, Epoch)
-                and not isinstance(equinox_epoch, Epoch)):
+                or not isinstance(equinox_epoch, Epoch)):
             raise TypeError("Invalid input types")
         # Second, compute Sun's rectangular coordinates w.r.t. J2000.0
         x0, y0, z0 = Sun.rectangular_coordinates_j2000(epoch)
